@@ -3,6 +3,7 @@ package props
 import (
 	"fmt"
 	"reflect"
+	"strings"
 	"testing"
 	"time"
 
@@ -26,11 +27,55 @@ type C06Case struct {
 // values that are nevertheless not the configured audience URI.
 var otherConfigured []string
 
+// globAudiences: configured audience URIs that contain characters special to glob / pattern / regexp matchers.
+var globAudiences = []string{"https://sp.example.com/saml?tenant=42", "https://[::1]:8443/saml", "urn:sp:*", "https://sp.example.com/a\\b", "https://sp.example.com/(saml)+", "https://sp.example.com/saml.", "https://*.example.com/saml", "urn:sp:[a-z]", "^https://sp.example.com$", "https://sp.example.com/%", "https://sp.example.com/_"}
+
+// globMiss returns a value that differs from uri but that uri, read as a glob / regexp / LIKE pattern, matches.
+func globMiss(uri string) string {
+	var sb strings.Builder
+	changed := false
+	for i := 0; i < len(uri); i++ {
+		c := uri[i]
+		switch {
+		case c == '?' || c == '.' || c == '_':
+			sb.WriteByte('x')
+			changed = true
+		case c == '*' || c == '%':
+			sb.WriteString("zz")
+			changed = true
+		case c == '\\' && i+1 < len(uri):
+			changed = true // the escape character disappears, the next character stays
+		case c == '[':
+			if j := strings.IndexByte(uri[i:], ']'); j > 1 {
+				sb.WriteByte(uri[i+1])
+				if uri[i+1] == ':' {
+					sb.Reset()
+					sb.WriteString(uri[:i] + "1")
+				}
+				i += j
+				changed = true
+				continue
+			}
+			sb.WriteByte(c)
+		case c == '^' || c == '$' || c == '(' || c == ')' || c == '+':
+			changed = true
+		default:
+			sb.WriteByte(c)
+		}
+	}
+	if !changed {
+		return uri + "x"
+	}
+	return sb.String()
+}
+
 func genAudienceValue(t *rapid.T, uri string) string {
 	if len(otherConfigured) > 0 && rapid.IntRange(0, 5).Draw(t, "audOtherConfigured") == 0 {
 		return rapid.SampledFrom(otherConfigured).Draw(t, "audOther")
 	}
-	switch rapid.IntRange(0, 9).Draw(t, "audKind") {
+	switch rapid.IntRange(0, 10).Draw(t, "audKind") {
+	case 10:
+		return globMiss(uri)
 	case 0, 1, 2:
 		return uri
 	case 3:
@@ -51,7 +96,9 @@ func genAudienceValue(t *rapid.T, uri string) string {
 
 func genC06(t *rapid.T) C06Case {
 	sp := h.BaseSP()
-	switch rapid.IntRange(0, 4).Draw(t, "audienceCfg") {
+	switch rapid.IntRange(0, 6).Draw(t, "audienceCfg") {
+	case 5, 6:
+		sp.Audience = rapid.SampledFrom(globAudiences).Draw(t, "audienceGlob")
 	case 0:
 		sp.Audience = ""
 	case 1:
@@ -277,6 +324,20 @@ func TestC06_Grid(t *testing.T) {
 			sp.Audience = uri
 			c := C06Case{SP: sp, Mode: []string{"response", "assertions"}[i%2], Window: "in"}
 			c.First.Audiences = l
+			finishC06(&c, func(err error) { t.Fatalf("harness: %v", err) })
+			cases = append(cases, c)
+		}
+	}
+	// configured URIs with pattern metacharacters: exact match, pattern-only match, plain miss
+	for i, uri := range globAudiences {
+		for j, aud := range []string{uri, globMiss(uri), uri + "x"} {
+			sp := h.BaseSP()
+			sp.Audience = uri
+			c := C06Case{SP: sp, Mode: []string{"response", "assertions"}[(i+j)%2], Window: "in"}
+			c.First.Audiences = [][]string{{aud}}
+			if j == 1 {
+				c.First.HasProxy, c.First.ProxyAudience = true, []string{aud, uri}
+			}
 			finishC06(&c, func(err error) { t.Fatalf("harness: %v", err) })
 			cases = append(cases, c)
 		}
